@@ -144,9 +144,9 @@ func checkC07() fw.Check {
 		Gen: func(tier string, seed int64) []fw.Case {
 			var cases []fw.Case
 			type bound struct{ n, k, sample int }
-			bounds := []bound{{1, 4, 1}, {2, 3, 1}, {3, 3, 8}}
+			bounds := []bound{{1, 4, 1}, {2, 3, 1}, {3, 3, 2}}
 			if tier == "thorough" {
-				bounds = []bound{{1, 5, 1}, {2, 4, 1}, {3, 4, 1}, {4, 3, 1}}
+				bounds = []bound{{1, 6, 1}, {2, 5, 1}, {3, 4, 1}, {4, 3, 1}, {5, 3, 2}}
 			}
 			const chunk = 400
 			for _, b := range bounds {
@@ -190,9 +190,9 @@ func checkC07() fw.Check {
 				}
 			}
 			// random tier (bubble)
-			nrand := 300
+			nrand := 1000
 			if tier == "thorough" {
-				nrand = 6000
+				nrand = 30000
 			}
 			for i := 0; i < nrand; i++ {
 				id := fmt.Sprintf("C07/rand/%d", i)
@@ -217,9 +217,9 @@ func checkC07() fw.Check {
 				}})
 			}
 			// stress tier: real goroutines, real clock, jitter at driver boundaries (race detector on in this binary)
-			nstress := 60
+			nstress := 120
 			if tier == "thorough" {
-				nstress = 1500
+				nstress = 4000
 			}
 			for i := 0; i < nstress; i++ {
 				id := fmt.Sprintf("C07/stress/%d", i)
